@@ -23,7 +23,7 @@ import sys
 import zipfile
 import zlib
 
-SYNTH_DIR = "/tmp/c06_synth_v2"
+SYNTH_DIR = "/tmp/c06_synth_v3"
 
 WORKER = r'''
 import sys, io, json, glob, hashlib, logging, dataclasses, os
@@ -92,10 +92,14 @@ for f in files:
             after = js(r)
             if before != after:
                 rec["observer_stable"] = False
-        # the same bytes again in this process
-        res2 = list(ex(io.BytesIO(data), f))
+        # the same bytes again in this process, the caller's cursor somewhere else
+        b2 = io.BytesIO(data)
+        b2.seek(min(7, len(data)))
+        res2 = list(ex(b2, f))
         if [js(r) for r in res2] != j1:
             rec["repeat_stable"] = False
+        if b2.getvalue() != data:
+            rec["buffer_unchanged"] = False
         # without a path (in-memory download)
         try:
             b3 = io.BytesIO(data)
@@ -184,6 +188,11 @@ def docx_with_styles(names):
     ids = [f"S{i}" for i in range(len(names))]
     paras = "".join(f'<w:p><w:pPr><w:pStyle w:val="{i}"/></w:pPr><w:r><w:t>paragraph {k}</w:t></w:r></w:p>' for k, i in enumerate(ids))
     paras += "".join(f'<w:p><w:pPr><w:pStyle w:val="{esc(n)}"/></w:pPr><w:r><w:t>direct {k}</w:t></w:r></w:p>' for k, n in enumerate(names))
+    # hyperlinks, several of them repeated (same text / same target)
+    links = [("alpha", "https://example.org/a"), ("beta", "https://example.org/b"), ("gamma", "https://example.org/c"), ("alpha", "https://example.org/a"),
+             ("delta", "https://example.org/d"), ("beta", "https://example.org/b"), ("epsilon", "https://example.org/a"), ("alpha", "https://example.org/z")]
+    paras += "".join(f'<w:p><w:r><w:t xml:space="preserve">See </w:t></w:r><w:hyperlink r:id="rL{k}"><w:r><w:t>{t}</w:t></w:r></w:hyperlink></w:p>'
+                     for k, (t, _u) in enumerate(links))
     doc = f'<?xml version="1.0" encoding="UTF-8" standalone="yes"?><w:document {w}><w:body>{paras}<w:sectPr/></w:body></w:document>'
     styles = (f'<?xml version="1.0" encoding="UTF-8" standalone="yes"?><w:styles {w}>' +
               "".join(f'<w:style w:type="paragraph" w:styleId="{i}"><w:name w:val="{esc(n)}"/></w:style>' for i, n in zip(ids, names)) + "</w:styles>")
@@ -194,7 +203,9 @@ def docx_with_styles(names):
     rels = ('<?xml version="1.0" encoding="UTF-8" standalone="yes"?><Relationships xmlns="http://schemas.openxmlformats.org/package/2006/relationships">'
             '<Relationship Id="rId1" Type="http://schemas.openxmlformats.org/officeDocument/2006/relationships/officeDocument" Target="word/document.xml"/></Relationships>')
     drels = ('<?xml version="1.0" encoding="UTF-8" standalone="yes"?><Relationships xmlns="http://schemas.openxmlformats.org/package/2006/relationships">'
-             '<Relationship Id="rId1" Type="http://schemas.openxmlformats.org/officeDocument/2006/relationships/styles" Target="styles.xml"/></Relationships>')
+             '<Relationship Id="rId1" Type="http://schemas.openxmlformats.org/officeDocument/2006/relationships/styles" Target="styles.xml"/>' +
+             "".join(f'<Relationship Id="rL{k}" Type="http://schemas.openxmlformats.org/officeDocument/2006/relationships/hyperlink" Target="{u}" TargetMode="External"/>'
+                     for k, (_t, u) in enumerate(links)) + '</Relationships>')
     return _zip([("[Content_Types].xml", ct.encode()), ("_rels/.rels", rels.encode()), ("word/document.xml", doc.encode()),
                  ("word/styles.xml", styles.encode()), ("word/_rels/document.xml.rels", drels.encode())])
 
@@ -223,10 +234,26 @@ def with_media(fixture_bytes, is_media, blob):
     return _zip(members) if n else None
 
 
+MBOX = (b"From alice@example.com Mon Jan 06 10:00:00 2025\nFrom: alice@example.com\nTo: team@example.com\nSubject: kickoff\n"
+        b"Date: Mon, 06 Jan 2025 10:00:00 +0000\nMessage-ID: <kickoff-001@example.com>\n\nfirst\n\n"
+        b"From bob@example.com Mon Jan 06 11:00:00 2025\nFrom: bob@example.com\nTo: team@example.com\nSubject: draft without id and date\n\nsecond\n\n"
+        b"From carol@example.com Mon Jan 06 12:00:00 2025\nFrom: carol@example.com\nSubject: no recipients\nDate: Mon, 06 Jan 2025 12:00:00 +0000\n\nthird\n")
+EML = b"From: dave@example.com\nSubject: bare message without Message-ID, Date, To\nMIME-Version: 1.0\nContent-Type: text/plain\n\nbody\n"
+
+
 def synth_corpus(repo):
     """{file name: bytes}; deterministic."""
-    out = {"c06_style_names.odt": odt_with_styles(NAME_POOL), "c06_style_names.docx": docx_with_styles(NAME_POOL)}
+    out = {"c06_style_names.odt": odt_with_styles(NAME_POOL), "c06_style_names.docx": docx_with_styles(NAME_POOL),
+           "c06_missing_headers.mbox": MBOX, "c06_missing_headers.eml": EML}
     res = os.path.join(repo, "sharepoint2text/tests/resources")
+    # optional fields absent / trailing padding: the places where defaults (now(), generated ids) and "repairs" of the input creep in
+    try:
+        pdfs = sorted((os.path.getsize(p), p) for p in (os.path.join(res, "pdf", f) for f in os.listdir(os.path.join(res, "pdf"))) if p.endswith(".pdf"))
+        raw = open(pdfs[0][1], "rb").read()
+        out["c06_trailing_padding.pdf"] = raw + b"\n" + b"\x00" * ((-(len(raw) + 1)) % 512 or 512)
+        out["c06_trailing_blanks.pdf"] = raw + b"\r\n   \n\n"
+    except OSError:
+        pass
     twins = [("jpeg", jpeg(640, 480), jpeg(320, 200)), ("png", png(3, 5), png(5, 3))]
     for fixture, pred, tag in (("modern_ms/pptx_formula_image.pptx", lambda n: n.startswith("ppt/media/"), "pptx"),
                                ("modern_ms/sample_with_comment_and_table.docx", lambda n: n.startswith("word/media/"), "docx")):
@@ -319,7 +346,7 @@ def mismatches(repo, scope="all", seeds=(1, 2)):
         if not all(r.get(f, {}).get("observer_stable", True) for r in runs):
             out.append((f, "to_json() changed by observers (units / images / streams read)", ""))
         if not all(r.get(f, {}).get("repeat_stable", True) for r in runs):
-            out.append((f, "to_json() differs between two extractions in one process", ""))
+            out.append((f, "to_json() differs between two extractions in one process (second one with the input cursor at offset 7)", ""))
         for rb in runs[1:]:
             rb = rb.get(f, {})
             for dk, jk, what in (("digest", "json", "to_json() differs between fresh processes"),
@@ -444,6 +471,10 @@ def _report(new, n, note=""):
 def find(req):
     repo = os.environ.get("VERIF_REPO", "/repo")
     hint = req.get("extra") or {}
+    if not hint and "::" in (req.get("function") or ""):
+        # obligation of a deductively verified function (contracts/C06.py::contracts): search at function level first
+        rel, q = req["function"].split("::", 1)
+        hint = {"kind": "stream", "file": rel, "function": q}
     kind = hint.get("kind")
     if kind == "stream":
         r = stream_search(repo, hint)
